@@ -13,7 +13,7 @@ SPEC = dict(
                 "fix-c14-1: a fully failing full batch spins forever); after a cycle every block after the starting point older than the "
                 "cutoff by more than one block time is pruned or in the failed set, and failed heights are retried by every cycle. "
                 "The model is re-validated on every run against the real pruner.Service (Start/prune/pruneOnHeaderDelete/"
-                "ResetCheckpoint/Stop, real checkpoint persistence) on ~2400 generated histories. Partial: the on-delete hook prunes "
+                "ResetCheckpoint/Stop, real checkpoint persistence) on ~2000 generated histories. Partial: the on-delete hook prunes "
                 "whatever the header store deletes (its safety is the store's obligation); the global completeness theorem covers "
                 "histories without header deletion, the per-cycle theorem covers any state, including a header-store tail that overtook the "
                 "checkpoint (with fix-c14-2 the block at the new tail is pruned too; before it that block was skipped for good); the archival/pruned store effect of "
